@@ -39,6 +39,7 @@ type mdGen struct {
 	code   [][]string // expected lines of every code block
 	heads  map[string]int
 	seq    int
+	decor  []string // literal text around a word that must appear verbatim in the document
 }
 
 type mdTable struct {
@@ -76,6 +77,15 @@ func (g *mdGen) inline(block string, maxParts int) string {
 		t := mdTok{tok: w, block: block}
 		switch k := r.Intn(14); {
 		case k < 3:
+			if r.Chance(1, 5) {
+				// benign punctuation that is plain text in Markdown and has to come through verbatim: ampersands that are not
+				// character references, percent and dollar amounts, a reference with too many digits
+				d := w + []string{"&copy=1", "&lt b", " R&D", "&reg=eu&lang=en", " &#12345678;", " 50%", " AT&T", "&amp", " a&b;c"}[r.Intn(9)]
+				g.decor = append(g.decor, d)
+				sb.WriteString(d)
+				g.use("literal-ampersand-text")
+				break
+			}
 			sb.WriteString(w)
 		case k == 5:
 			t.em = true
@@ -317,13 +327,44 @@ func (g *mdGen) document() string {
 			sb.WriteString("| " + strings.Join(hdr, " | ") + " |\n| " + strings.Join(sep, " | ") + " |\n")
 			for i := 0; i < rows; i++ {
 				var row []string
+				var src []string
 				for c := 0; c < cols; c++ {
 					w := g.word()
+					if r.Chance(1, 4) {
+						// a body cell that is only partly formatted: plain text beside emphasis, code or strike-through
+						w2 := g.word()
+						t2 := mdTok{tok: w2, block: "cellfmt"}
+						md := ""
+						switch k := r.Intn(4); {
+						case k == 0:
+							t2.strong, md = true, "**"+w2+"**"
+						case k == 1:
+							t2.em, md = true, "*"+w2+"*"
+						case k == 2:
+							t2.code, md = true, "`"+w2+"`"
+						case g.gfm:
+							t2.strike, md = true, "~~"+w2+"~~"
+						default:
+							t2.em, md = true, "_"+w2+"_"
+						}
+						g.use("partly-formatted-cell")
+						if r.Bool() {
+							row = append(row, w+" "+w2)
+							src = append(src, w+" "+md)
+							g.toks = append(g.toks, mdTok{tok: w, block: "cellfmt"}, t2)
+						} else {
+							row = append(row, w2+" "+w)
+							src = append(src, md+" "+w)
+							g.toks = append(g.toks, t2, mdTok{tok: w, block: "cellfmt"})
+						}
+						continue
+					}
 					row = append(row, w)
+					src = append(src, w)
 					g.toks = append(g.toks, mdTok{tok: w, block: "cell"})
 				}
 				t.rows = append(t.rows, row)
-				sb.WriteString("| " + strings.Join(row, " | ") + " |\n")
+				sb.WriteString("| " + strings.Join(src, " | ") + " |\n")
 			}
 			sb.WriteString("\n")
 			g.tables = append(g.tables, t)
@@ -515,6 +556,27 @@ func c19Fidelity(c *core.Ctx, r *rng.R) *core.Result {
 			sb.WriteString(rr.Text.Content)
 		}
 		paraTexts = append(paraTexts, sb.String())
+	}
+	// 2c. literal text with ampersands, percent signs etc. is neither decoded nor dropped
+	allText := strings.Join(paraTexts, "\n")
+	for _, tb := range d.Body.GetTables() {
+		for i := range tb.Rows {
+			for j := range tb.Rows[i].Cells {
+				for _, p := range tb.Rows[i].Cells[j].Paragraphs {
+					for _, rr := range p.Runs {
+						allText += rr.Text.Content
+					}
+					allText += "\n"
+				}
+			}
+		}
+	}
+	for _, dec := range g.decor {
+		res.Count("literal_texts_checked", 1)
+		if !strings.Contains(allText, dec) {
+			res.Add("fidelity/text/literal-text-changed", fmt.Sprintf("the literal text %q of the Markdown source is not in the document as written", dec), optNote, src)
+			break
+		}
 	}
 	for i := 0; i+1 < len(g.toks); i++ {
 		a, b := g.toks[i], g.toks[i+1]
